@@ -62,7 +62,7 @@ def leg_T(ctx, sessions, only=None):
         args.append(only)
     ctx.vh(args)
     n, bad = ctx.validate_trace("Trace_Mash", tpath, timeout=6000, maxset=100000000 if ctx.tier == "thorough" else None,
-                                heap="12g" if ctx.tier == "thorough" else None)
+                                heap="12g" if ctx.tier == "thorough" else "6g")
     events = vlib.read_ndjson(tpath)
     sids = {e["sid"] for e in events}
     badsids = set()
